@@ -431,6 +431,72 @@ impl<C: Suite> Model for M12Big<C> {
     }
 }
 
+// ---- free running: two ciphertexts sealed by two freshly started threads ------------------------------------
+//
+// Not an enumeration: real entropy, no seam. Each thread's first library call seals a different message to the same
+// split key; a share made for one ciphertext must not verify against the other, and must not open it.
+
+pub struct M12Free<C: Suite> {
+    _c: PhantomData<C>,
+}
+
+impl<C: Suite> Model for M12Free<C> {
+    type State = Option<Scheme>;
+    type Action = Scheme;
+    fn name(&self) -> String {
+        format!("c12-two-threads-free-running/{}", C::G)
+    }
+    fn init(&self) -> Vec<Option<Scheme>> {
+        vec![None]
+    }
+    fn actions(&self, st: &Option<Scheme>) -> Vec<Scheme> {
+        if st.is_some() {
+            vec![]
+        } else {
+            SCHEMES.to_vec()
+        }
+    }
+    fn step(&self, _s: &Option<Scheme>, a: &Scheme) -> Option<Option<Scheme>> {
+        Some(Some(*a))
+    }
+    fn describe(&self, st: &Option<Scheme>) -> String {
+        format!("{} free running (real entropy, a sample): two new threads seal different messages under {:?} to one split key; shares across the two ciphertexts", C::G, st)
+    }
+    fn required_outcomes(&self) -> Vec<String> {
+        vec!["two-threads:shares-bound-to-their-ciphertext".into()]
+    }
+    fn check(&self, st: &Option<Scheme>, o: &mut Obs) {
+        let Some(s) = st else { return };
+        o.nontrivial = true;
+        let g = C::G;
+        let sk = SecretKey::<C>::from_hash(b"c12 two threads");
+        let pk = sk.public_key();
+        let shares = sk.split_with_rng(2, 3, rand_chacha::ChaCha20Rng::from_seed([12u8; 32])).unwrap();
+        let ls = lib_scheme(*s);
+        let seal = move |m: &'static [u8]| std::thread::spawn(move || pk.sign_crypt(ls, m)).join();
+        let (Ok(a), Ok(b)) = (seal(b"message of the first thread"), seal(b"message of the second thread, another one")) else {
+            o.expect(&format!("C12:two-threads:{}:seal-panics", g), false, "returns", "PANIC");
+            return;
+        };
+        o.calls(2);
+        o.expect(&format!("C12:two-threads:{}:{}:distinct-ephemeral", g, s.name()), a.u != b.u, "different u", "the same u from two threads");
+        let mut bound = true;
+        let mut ds = vec![];
+        for sh in &shares[..2] {
+            let d = a.create_decryption_share(sh).unwrap();
+            let pks = sh.public_key().unwrap();
+            bound &= d.verify(&pks, &a).is_ok() && d.verify(&pks, &b).is_err();
+            ds.push(d);
+        }
+        o.expect(&format!("C12:two-threads:{}:{}:share-verifies-only-for-its-ciphertext", g, s.name()), bound, "own: accept, other thread's ciphertext: reject", "accepted for the other ciphertext (or rejected for its own)");
+        let cross = Option::<Vec<u8>>::from(b.decrypt_with_shares(&ds));
+        let own = Option::<Vec<u8>>::from(a.decrypt_with_shares(&ds));
+        let ok = own.as_deref() == Some(b"message of the first thread".as_slice()) && cross.as_deref() != Some(b"message of the second thread, another one".as_slice());
+        o.expect(&format!("C12:two-threads:{}:{}:shares-open-only-their-ciphertext", g, s.name()), ok, "own message; not the other thread's", "the other thread's message (or not the own)");
+        o.outcome(if bound && ok && a.u != b.u { "two-threads:shares-bound-to-their-ciphertext" } else { "two-threads:shares-cross" });
+    }
+}
+
 fn depth_of<C: Suite>(_m: &M12<C>, s: &St) -> usize {
     s.seq.len() + s.fault.is_some() as usize
 }
@@ -444,6 +510,8 @@ pub fn models(tier: Tier, seed: u64) -> Vec<Box<dyn DynModel>> {
         v.push(bounded(M12::<Bls12381G1Impl>::new(tier, seed), 10));
         v.push(bounded(M12::<Bls12381G2Impl>::new(tier, seed), 10));
     }
+    v.push(bounded(M12Free::<Bls12381G1Impl> { _c: PhantomData }, 1));
+    v.push(bounded(M12Free::<Bls12381G2Impl> { _c: PhantomData }, 1));
     v.push(bounded(M12Big::<Bls12381G1Impl>::new(tier, seed), 1));
     v.push(bounded(M12Big::<Bls12381G2Impl>::new(tier, seed), 1));
     v.extend(crate::props::tsurf::models("C12", tier, seed));
